@@ -269,7 +269,7 @@ fn gen_multipart_input(rng: &mut Rng) -> (Vec<u8>, &'static str) {
         if rng.bool() { FormPart::Text { name, value: rng.pick(&["", "hello", "two\r\nlines", "狼"]).to_string() } }
         else { FormPart::File { name, filename: rng.pick(&["", "a.png", "b c.txt"]).to_string(), mime: rng.pick(&["", "image/png", "multipart/mixed", "text/plain"]).to_string(), content: { let cs: [&[u8]; 4] = [b"", b"abc", b"\r\n", b"\xff\x00--"]; rng.pick(&cs).to_vec() } } }
     }).collect();
-    let valid = encode(&parts, &EncodeOpts { boundary: rng.pick(&["b", "----WebKitFormBoundaryX", "a'()+_,-./:=?"]).to_string(), extra_headers: rng.chance(1, 4), extra_at: rng.below(3) as u8, lower_header_names: rng.chance(1, 4), content_type_first: rng.chance(1, 4) });
+    let valid = encode(&parts, &EncodeOpts { boundary: rng.pick(&["b", "----WebKitFormBoundaryX", "a'()+_,-./:=?"]).to_string(), extra_headers: rng.chance(1, 4), extra_at: rng.below(3) as u8, lower_header_names: rng.chance(1, 4), content_type_first: rng.chance(1, 4), text_ctypes: vec![] });
     match rng.below(10) {
         0 => ({ let n = rng.below(120); rng.bytes(n) }, "random-bytes"),
         1 | 2 | 3 => (valid, "grammar-valid"),
@@ -396,7 +396,7 @@ pub fn run(args: &Args, rep: &mut Report) {
     if !small {
         // memory blow-ups abort the worker instead of the machine. Not under AddressSanitizer: its shadow memory needs terabytes of
         // address space, and its own allocator limit (ASAN_OPTIONS hard_rss_limit_mb, set by the driver) does the same job there.
-        if std::env::var_os("ASAN_OPTIONS").is_none() {
+        if std::env::var_os("ASAN_OPTIONS").is_none() && std::env::var_os("VH_UNDER_VALGRIND").is_none() {
             unsafe {
                 let lim = libc::rlimit { rlim_cur: 6 << 30, rlim_max: 6 << 30 };
                 libc::setrlimit(libc::RLIMIT_AS, &lim);
